@@ -98,34 +98,52 @@ class G:
 
 
 def gen_block_table(g: G):
-    """A table in BLOCK form (complete blocks, rows shuffled): record key `id`, one key column `s` holding the labels,
-    one value column. The labels are column names of the value type, so the pivot (blocks -> row records) of this table
-    is again a well-typed table. tbl["blocks"] tells step_convert_records how to pivot it."""
-    vt = g.pick(["float", "int"])  # the str pool is too small for a value column plus two labels
-    vname = g.pick([n for n in S.POOLS[vt] if n not in ("id", "s", "g")])
-    labels = g.subset([n for n in S.POOLS[vt] if n not in ("id", "s", "g", vname)], lo=2, hi=3)
+    """A table in BLOCK form (complete blocks, rows shuffled): record key `id` (optionally also `g`), one key column `s`
+    holding the level names, one or two value columns (a float one and, sometimes, an int one - listed in either order).
+    Every control-table entry is a column name of the value column's type, so the pivot (blocks -> row records) of this
+    table is again a well-typed table. tbl["blocks"] tells step_convert_records how to pivot it:
+    {"record_keys", "key_col", "val_cols": [...], "levels": [{"key": level name, "cols": [output name per value col]}]}"""
+    two = g.boolean(0.4)
+    vts = ["float", "int"] if two else [g.pick(["float", "int"])]
+    reserved = {"id", "s", "g"}
+    vnames, level_cols = [], []
+    nlev = g.pick([2, 2, 3]) if not two else 2
+    for vt in vts:
+        free = [n for n in S.POOLS[vt] if n not in reserved]
+        vn = g.pick(free)
+        reserved.add(vn)
+        vnames.append(vn)
+        labs = g.subset([n for n in S.POOLS[vt] if n not in reserved], lo=nlev, hi=nlev)
+        reserved.update(labs)
+        level_cols.append(labs)
+    nlev = min(len(x) for x in level_cols)
+    levels = [{"key": level_cols[0][i], "cols": [lc[i] for lc in level_cols]} for i in range(nlev)]
     nrec = g.pick([0, 1, 2, 3, 4])
     extra = g.boolean(0.4)  # a second record key column
-    cols = [["id", "int", False]] + ([["g", "str", False]] if extra else []) + [["s", "str", False], [vname, vt, vt != "int"]]
+    vcol_specs = [[vn, vt, vt != "int"] for vn, vt in zip(vnames, vts)]
+    if two and g.boolean():
+        vcol_specs.reverse()  # the data table lists its value columns in the other order than the control table
+    cols = [["id", "int", False]] + ([["g", "str", False]] if extra else []) + [["s", "str", False]] + vcol_specs
     rows = []
     for rid in range(1, nrec + 1):
         gk = g.pick(KEY_STR_VALS) if extra else None
-        for lab in labels:
-            if vt == "int":
-                v = g.pick(INT_VALS)
-            elif vt == "float":
-                v = None if g.boolean(0.15) else g.pick(FLOAT_VALS)
-            else:
-                v = None if g.boolean(0.15) else g.pick(STR_VALS)
-            rows.append([rid] + ([gk] if extra else []) + [lab, v])
+        for lev in levels:
+            vals = []
+            for vn, vt, _ in vcol_specs:
+                if vt == "int":
+                    vals.append(g.pick(INT_VALS))
+                else:
+                    vals.append(None if g.boolean(0.15) else g.pick(FLOAT_VALS))
+            rows.append([rid] + ([gk] if extra else []) + [lev["key"]] + vals)
+    kpos = 1 + (1 if extra else 0)
     if rows and "block_level_without_rows" not in g.closed and g.boolean(0.15):
         # one control-table level has no rows at all (every record lacks it): its columns are all missing
-        gone = g.pick(labels)
-        rows = [r for r in rows if r[-2] != gone]
+        gone = g.pick([lev["key"] for lev in levels])
+        rows = [r for r in rows if r[kpos] != gone]
     if rows:
         rows = list(g.draw(st.permutations(rows)))
     rk = ["id"] + (["g"] if extra else [])
-    return {"cols": cols, "rows": rows, "keys": [["id", "s"]], "blocks": {"record_keys": rk, "key_col": "s", "val_col": vname, "labels": labels}}
+    return {"cols": cols, "rows": rows, "keys": [["id", "s"]], "blocks": {"record_keys": rk, "key_col": "s", "val_cols": vnames, "levels": levels}}
 
 
 def gen_table(g: G, name: str, force_cols: Optional[List[str]] = None):
@@ -678,7 +696,13 @@ def step_map_columns(g: G, sch: Sch):
     used = {old for old, _ in pairs} | {new for _, new in pairs}
     rest = [n for n in sch.names() if n not in used]
     if rest and len(sch.names()) - 1 > len(pairs) and g.boolean(0.4):
-        mapping.append([g.pick(rest), None])
+        gone = g.pick(rest)
+        mapping.append([gone, None])
+        rest = [n for n in rest if n != gone]
+    if rest and "map_identity_entry" not in g.closed and g.boolean(0.35):
+        # an identity entry {"k": "k"}: legal, the column is simply kept
+        keep = g.pick(rest)
+        mapping.append([keep, keep])
     if not mapping:
         return None
     if g.boolean(0.5):
@@ -794,8 +818,8 @@ def step_convert_records(g: G, sch: Sch, blocks=None):
     """An unpivot (row records -> blocks) of 2-3 same-typed value columns, or — when the source is a block-form table
     (`blocks` = its description, see gen_block_table) — the pivot of that table into row records."""
     if blocks is not None and g.boolean(0.8):
-        kc, vc = blocks["key_col"], blocks["val_col"]
-        ct = {"cols": [kc, vc], "rows": [[lab, lab] for lab in blocks["labels"]]}
+        kc = blocks["key_col"]
+        ct = {"cols": [kc] + list(blocks["val_cols"]), "rows": [[lev["key"]] + list(lev["cols"]) for lev in blocks["levels"]]}
         rm = {"blocks_in": {"control_table": ct, "record_keys": list(blocks["record_keys"]), "control_table_keys": [kc]}, "blocks_out": None, "strict": True}
         return {"op": "convert_records", "record_map": rm}
     kind = g.pick(["unpivot", "unpivot", "pivot"])
